@@ -768,6 +768,17 @@ def run(run: Run):
     run.guard('C17.R5', check_plumbing, run, 'C17.R5', src, em, rt, FUNCS)
     run.guard('C17.R6', r6, run, src, g, em)
     run.guard('C17.R7', r7, run, rt)
+    # a function result depends on its arguments only: no runtime helper keeps results or other state between calls
+    from .common import borrow as _borrow
+    from . import c08 as _c08
+    from ..callgraph import get_callgraph as _gcg
+    from ..source import get_source as _gs
+    from ..runtime import get_runtime as _grt
+    run.rule('C17.R8', 'runtime helpers are pure functions of their arguments: no write effects, no value cache (shared with C08.R1/R4)')
+    _src = _gs()
+    _borrow(run, 'C17.R8', _c08.r1, _src, _grt(_src), _gcg(_src))
+    _borrow(run, 'C17.R8', _c08.r4, _src, _grt(_src))
+    run.floor('C17.R8', 50)
     run.floor('C17.R1', 30)
     run.floor('C17.R2', 6)
     run.floor('C17.R3', 16)
